@@ -174,7 +174,8 @@ Section Lower.
   (* the dictionary holds exactly the keys in use, with values in range, and every description is the
      one determined by the keys that point to it *)
   Definition description_okb (exact : bool) (cs : list commit) (dict : list (str * nat)) (rev : list str) : bool :=
-    forallb (fun kv => key_used exact cs (fst kv) && Nat.ltb (snd kv) (length rev)) dict
+    all_pairs (fun x y => negb (str_eqb (fst x) (fst y))) dict
+    && forallb (fun kv => key_used exact cs (fst kv) && Nat.ltb (snd kv) (length rev)) dict
     && str_list_eqb rev (map (spec_description exact cs dict) (seq 0 (length rev))).
 
   (* the authors are the ones Consume computes from the dictionary *)
